@@ -396,6 +396,10 @@ func ruleCopyOnWrite(w *World, r *Report) {
 					}
 				case ssa.CallInstruction:
 					com := v.Common()
+					if w.cowCallEstablishesOwned(v, recv, fa) {
+						st = true // a method of the same buffer that returns only with the buffer owned (the copy step as a helper)
+						continue
+					}
 					name := builtinName(com)
 					if name != "append" && name != "copy" {
 						continue
@@ -445,6 +449,10 @@ func (w *World) cowOwnedStates(fn *ssa.Function, recv ssa.Value, fa *FreshAnalys
 	}
 	transfer := func(b *ssa.BasicBlock, st bool) bool {
 		for _, ins := range b.Instrs {
+			if c, ok := ins.(ssa.CallInstruction); ok && w.cowCallEstablishesOwned(c, recv, fa) {
+				st = true
+				continue
+			}
 			if v, ok := ins.(*ssa.Store); ok {
 				if f, ok := v.Addr.(*ssa.FieldAddr); ok && f.X == recv {
 					_, fld := fieldOfAddr(f)
@@ -617,4 +625,50 @@ func ruleUnsafeInventory(w *World, r *Report) {
 	}
 	r.Expect("source files scanned for unsafe/cgo/linkname", nFiles, 26)
 	r.Expect("functions using unsafe", nUses, 2)
+}
+
+// cowCallEstablishesOwned: the call is a method call on the same CopyOnWriteBuffer whose every return is reached with
+// the buffer owned (a fresh store happened or the copied flag was seen true) — the "copy on first write" step factored
+// into a helper.
+func (w *World) cowCallEstablishesOwned(c ssa.CallInstruction, recv ssa.Value, fa *FreshAnalysis) bool {
+	com := c.Common()
+	cal := com.StaticCallee()
+	if cal == nil || cal.Signature.Recv() == nil || len(com.Args) == 0 || com.Args[0] != recv || cal.Blocks == nil {
+		return false
+	}
+	key := "cowowned:" + cal.String()
+	if v, ok := w.memo[key]; ok {
+		return v.(bool)
+	}
+	w.memo[key] = false // recursion guard
+	in := w.cowOwnedStates(cal, cal.Params[0], fa)
+	res := true
+	for _, b := range cal.Blocks {
+		if _, isRet := b.Instrs[len(b.Instrs)-1].(*ssa.Return); !isRet {
+			continue
+		}
+		st := in[b]
+		for _, ins := range b.Instrs {
+			if cc, ok := ins.(ssa.CallInstruction); ok && w.cowCallEstablishesOwned(cc, cal.Params[0], fa) {
+				st = true
+				continue
+			}
+			if v, ok := ins.(*ssa.Store); ok {
+				if f, ok := v.Addr.(*ssa.FieldAddr); ok && f.X == ssa.Value(cal.Params[0]) {
+					if _, fld := fieldOfAddr(f); fld.Name() == "buffer" {
+						if isFreshOnly(fa.Of(v.Val)) {
+							st = true
+						} else if _, ok := appendOfCOW(v.Val, cal.Params[0]); !(ok && st) {
+							st = false
+						}
+					}
+				}
+			}
+		}
+		if !st {
+			res = false
+		}
+	}
+	w.memo[key] = res
+	return res
 }
